@@ -152,6 +152,8 @@ def fold_loop(I, s: ast.For, k: int, rule: Fold):
         for v in state_vars:
             val = I.to_val(outer_env[v])
             fresh_state[v] = I.from_val(Val(val.sort, I.fresh(val.sort, v)))
+            if isinstance(fresh_state[v], SAdt):
+                fresh_state[v].fresh = getattr(outer_env[v], "fresh", False)
         elems = [I.from_val(Val(srt, I.fresh(srt, fld))) for fld, srt in elem_fields]
 
         def run():
@@ -229,7 +231,10 @@ def fold_loop(I, s: ast.For, k: int, rule: Fold):
             args.append(spec_term(I, rule.args[pn], env0, tag, want=ps))
     res = w.b_call(f, args, f)
     for v in state_vars:
-        I.st.env[v] = I.from_val(spec_term(I, rule.state[v], {"acc": res}, tag))
+        nv = I.from_val(spec_term(I, rule.state[v], {"acc": res}, tag))
+        if isinstance(nv, SAdt):
+            nv.fresh = getattr(outer_env[v], "fresh", False)
+        I.st.env[v] = nv
     for t in temporaries | set(tnames):
         I.st.env[t] = SOpaque(f"value of {t} after loop {k} (not modelled)")
 
